@@ -1022,6 +1022,9 @@ class TypeAnnotator:
         if kind and kind.is_type(exp.DType.UNKNOWN):
             return None
 
+        # The type can be a node of the tree itself (e.g. the target type of a CAST), so it must not be moved
+        kind = kind.copy() if kind else kind
+
         if this:
             return exp.ColumnDef(this=this, kind=kind)
 
